@@ -368,9 +368,19 @@ func run(c *wk.Case) {
 			size = 1
 		}
 		f := simgen.GenFont(t, kind, size)
+		big := false
 		if t.Chance(2, 3) {
 			simgen.AddLayoutTables(t, f)
 		}
+		if t.Chance(1, 60) {
+			// lookup data beyond 64 KiB: lookup reordering and extension subtables
+			if g := simgen.BigGpos(t, f.NumGlyphs()); g != nil {
+				f.Gpos = g
+				big = true
+				c.Count("fonts_with_more_than_64KiB_of_lookup_data", 1)
+			}
+		}
+		_ = big
 		c.Sample = map[string]any{"source": "constructed font", "outlines": kind.String(), "glyphs": f.NumGlyphs(),
 			"gsub": f.Gsub != nil, "gpos": f.Gpos != nil, "gdef": f.Gdef != nil, "timestamps": hasTimestamp(f)}
 		c.Logf("constructed %s font, %d glyphs, gsub=%v gpos=%v gdef=%v timestamps=%v", kind, f.NumGlyphs(), f.Gsub != nil, f.Gpos != nil, f.Gdef != nil, hasTimestamp(f))
